@@ -19,7 +19,12 @@ generated with backend=jax (rhs, monitor_values, missing_values for 1-3 requeste
 hybrid_rush_larsen, init functions) is exec'ed; every function is called jitted and under jax.disable_jit() at 2 points.  Checks:
 call succeeds; len(rhs)/len(scheme) == n_states, len(monitor_values) == number of monitored names, len(missing_values) == number of
 requested names; every entry equals the NumPy-backend module of the same model by name (rtol 1e-9); init functions return the
-declared defaults and honour keyword overrides.  One case = one (model, function, mode, point).  Models whose NumPy module cannot
+declared defaults and honour keyword overrides.  missing_values is additionally generated (without schemes) for 2 further requests of 2-4
+names (states, parameters, intermediates) whose requested SLOT order differs from the order in which the generator emits the names (states by
+name, parameters by name, then assignments in dependency order): the reversed emission order and a seeded permutation, plus the hand-written
+requests {'flux': 0, 'x': 1}, {'b': 0, 'a': 1}, ... of MISSING_PROBE; the JAX result must equal the NumPy result entry by entry.  Value
+comparisons: rtol 1e-9, atol 1e-12 x (1 + largest magnitude).  A fraction of the models has intermediates that mention a d<state>_dt name.
+One case = one (model, function, mode, point).  Models whose NumPy module cannot
 be generated are skipped (C01).  Non-trivial: the function's NumPy result is not identically zero; distinct by sha1(text, function,
 mode, point)."""
 
@@ -32,18 +37,24 @@ PROBES = [
 ]
 
 
+MISSING_PROBE = "parameters(a=2.0, b=0.25)\nstates(x=1.5, y=-2.0)\nflux = a*x - y\nw0 = flux*b + 3.0\nunused = y*7.0\ndx_dt = -flux\ndy_dt = w0 - y\n"
+MISSING_REQUESTS = [{"flux": 0, "x": 1}, {"b": 0, "a": 1}, {"b": 0, "flux": 1, "a": 2, "x": 3}, {"w0": 0, "flux": 1}, {"y": 0, "x": 1}, {"dy_dt": 0, "unused": 1, "y": 2},
+                    {"x": 0, "flux": 1}, {"a": 0, "b": 1}]
+
+
 def probe_text(e):
     return f"parameters(a=2.0, b=1/4)\nstates(x=1.5, y=2.0)\nw0 = {e}\ndx_dt = w0 - a*x\ndy_dt = b - y*abs(x)\n"
 
 
 def cases(tier, seed, focus):
     n = 110 if tier == "quick" else 1200
+    yield {"ode": MISSING_PROBE, "npts": 2, "missing": MISSING_REQUESTS[0], "missing_extra": MISSING_REQUESTS[1:], "only_fn": "missing_values", "tags": ["C03:value-mismatch:missing_values", "C03"]}
     for e in PROBES:
         yield {"ode": probe_text(e), "npts": 2, "tags": ["C03"]}
     for i in range(n):
         k = seed * 100003 + i
         force = list(mg.feature_cycle(k)) + (["And3"] if i % 4 == 0 else ["Or3"] if i % 4 == 2 else [])
-        yield {"mseed": k, "opts": {"force": force, "n_states": [1, 4], "n_params": [0, 4], "n_inter": [0, 6]}, "npts": 2, "tags": ["C03"]}
+        yield {"mseed": k, "opts": {"force": force, "n_states": [1, 4], "n_params": [0, 4], "n_inter": [0, 6], "deriv_ref": 0.15}, "npts": 2, "tags": ["C03"]}
 
 
 def check(case):
@@ -59,8 +70,8 @@ def check(case):
     only = c.get("only")  # (function, mode) restriction of a stored failure
     res["sample"] = {"ode": text, "points": c["points"][:1]}
 
-    def add(kind, what, inp, exp=None, act=None, detail="", base=None, feature=False):
-        sig = f"C03:{kind}" + (f":{cm.main_feature(text)}" if feature else "")
+    def add(kind, what, inp, exp=None, act=None, detail="", base=None, feature=False, sub=None):
+        sig = f"C03:{kind}" + (f":{sub}" if sub else f":{cm.main_feature(text)}" if feature else "")
         f = cm.fail(sig, what, inp, exp, act, detail)
         if shr:
             f["_shrink"] = {"base": f"C03:{base or kind}"}
@@ -95,6 +106,8 @@ def check(case):
         add(k, f"jax module cannot be {'generated' if e.stage == 'codegen' else 'imported'} although the NumPy module can", {"ode": text}, "module", cm.exc_name(e.exc), str(e))
         return res
     fns = [("rhs", None, npm.n_states), ("monitor_values", None, len(ref.assigns)), ("missing_values", None, len(req))] + [(s, 0.1, npm.n_states) for s in schemes]
+    if c.get("only_fn"):
+        fns = [f for f in fns if f[0] == c["only_fn"]]
     broken = set()
     for pt in c["points"]:
         pt = cm.restrict_point(pt, ref)
@@ -128,12 +141,61 @@ def check(case):
                     add(f"wrong-length:{group(fn)}", f"jax {fn} returns {got.shape} entries, documented length is {n_expect}", inp, n_expect, list(got.shape))
                     continue
                 jnames = out_names(fn, jm, req)
-                bad = {n: float(got[jnames[n]]) for n in names if not cm.close(got[jnames[n]], want[names[n]], 1e-9, 1e-12)}
+                scale = max([abs(v) for v in pt["states"].values()] + [0.0])
+                bad = {n: float(got[jnames[n]]) for n in names if not cm.vclose(got[jnames[n]], want[names[n]], scale)}
                 if bad:
                     add(f"value-mismatch:{group(fn)}", f"jax {fn} ({mode}) differs from the NumPy backend for {sorted(bad)[:3]}", inp, {n: float(want[names[n]]) for n in bad}, bad,
-                        base=f"value-mismatch:{group(fn)}", feature=True)
+                        base=f"value-mismatch:{group(fn)}", feature=True, sub="slot-order" if fn == "missing_values" and permuted(bad.values(), [want[names[n]] for n in bad]) else None)
         if shr and res["failures"]:
             break
+    # missing_values with requests whose slot order differs from the emission order ------------------------------------
+    extra = c.get("missing_extra")
+    if extra is None and not only and not case.get("_noshrink"):
+        extra = extra_requests(ref, npm, text)
+    for rq in extra or []:
+        rq = {k: int(v) for k, v in rq.items() if k in ref.assigns or k in ref.states or k in ref.params}
+        if len(rq) < 2 or sorted(rq.values()) != list(range(len(rq))) or (shr and res["failures"]):
+            continue
+        try:
+            npx = be.build(ode, "numpy", missing_values=rq)
+        except be.Stage:
+            cm.note(res, "skipped:numpy-missing_values-codegen-fails")
+            continue
+        try:
+            jx = be.build(ode, "jax", missing_values=rq)
+        except be.Stage as e:
+            cm.note(res, f"skipped:jax-{e.stage}-fails-for-extra-request(reported for the main request)")
+            continue
+        for pt in c["points"]:
+            pt = cm.restrict_point(pt, ref)
+            s, p = npx.arrays(pt)
+            sj, pj = jx.arrays(pt)
+            try:
+                want = npx.raw("missing_values", s, pt["t"], p)
+            except be.Stage:
+                continue
+            if not np.all(np.isfinite(want)) or want.shape != (len(rq),):
+                continue
+            scale = max([abs(v) for v in pt["states"].values()] + [0.0])
+            for mode in ("jit", "nojit"):
+                res["evals"] += 1
+                inp = {"ode": text, "points": [pt], "missing": rq, "only": ["missing_values", mode]}
+                if np.any(want != 0):
+                    res["nontrivial"].append(cm.sha([text, "missing_values", mode, pt, rq]))
+                try:
+                    got = jx.raw("missing_values", sj, pt["t"], pj, jit=(mode == "jit"))
+                except be.Stage as e:
+                    add(f"call-raises:{cm.exc_name(e.exc)}:{cm.msg_key(e.exc)}", f"jax missing_values raises ({mode}) for the request {rq}", inp, "array", cm.exc_name(e.exc), str(e))
+                    break
+                if got.shape != (len(rq),):
+                    add("wrong-length:missing_values", f"jax missing_values returns {got.shape} entries for the request {rq}", inp, len(rq), list(got.shape))
+                    break
+                bad = {n: float(got[i]) for n, i in rq.items() if not cm.vclose(got[i], want[i], scale)}
+                if bad:
+                    add("value-mismatch:missing_values", f"jax missing_values ({mode}) for the request {rq} differs from the NumPy backend for {sorted(bad)[:3]}", inp, {n: float(want[rq[n]]) for n in bad}, bad,
+                        f"request slots {rq}; emission order {emission_order(ref, npm)}", base="value-mismatch:missing_values", feature=True,
+                        sub="slot-order" if permuted(bad.values(), [want[rq[n]] for n in bad]) else None)
+                    break
     # init functions
     if not only or only[0].startswith("init"):
         s0, p0 = ref.defaults()
@@ -170,6 +232,46 @@ def group(fn):
 def pick_missing(ref):
     names = (ref.inter_names[:2] + ref.state_names[:1]) or ref.state_names[:1]
     return {n: i for i, n in enumerate(names)}
+
+
+def permuted(got, want) -> bool:
+    """the wrong entries are the expected values in other slots"""
+    got, want = sorted(float(x) for x in got), sorted(float(x) for x in want)
+    return len(got) >= 2 and all(cm.vclose(a, b, 0.0) for a, b in zip(got, want))
+
+
+def emission_order(ref, npm):
+    """order in which the generator writes requested names: states by name, parameters by name, assignments in dependency order"""
+    return sorted(ref.states) + sorted(ref.params) + [n for n, _ in sorted(npm.monitor.items(), key=lambda kv: kv[1])]
+
+
+def extra_requests(ref, npm, text):
+    """two requests of 2-4 names whose slot order differs from the emission order: reversed emission order, a seeded permutation"""
+    import random
+
+    rng = random.Random(cm.sha(text))
+    order = emission_order(ref, npm)
+    pools = [sorted(ref.states), sorted(ref.params), ref.inter_names, ref.deriv_names]
+    names = []
+    for pool in pools:  # one of each kind when available, then fill up
+        if pool:
+            names.append(rng.choice(pool))
+    rest = [n for n in order if n not in names]
+    while len(names) < 2 and rest:
+        names.append(rest.pop(rng.randrange(len(rest))))
+    names = names[:4]
+    if len(names) < 2:
+        return []
+    em = [n for n in order if n in names]
+    out = [{n: i for i, n in enumerate(reversed(em))}]
+    perm = em[:]
+    for _ in range(5):
+        rng.shuffle(perm)
+        if perm != em and perm != list(reversed(em)):
+            break
+    if perm != em and perm != list(reversed(em)):
+        out.append({n: i for i, n in enumerate(perm)})
+    return out
 
 
 def out_names(fn, m, req):
